@@ -28,7 +28,7 @@ def _worker(job):
         from pyvc import verify
         if kind == 'lemma':
             lem = [l for l in REG.lemmas if l['id'] == key][0]
-            o = verify.verify_lemma(lem, timeout_ms)
+            o = verify.verify_lemma(lem, timeout_ms, findings=findings, reg=REG)
             return {'key': key, 'kind': 'lemma', 'obligations': {key: o}, 'info': {'qualname': 'lemma:' + key},
                     'unsupported': None, 'error': None}
         db = ProgDB(REPO)
@@ -109,7 +109,7 @@ def main():
             jobs.append(('target', key, modules, timeout_ms, fnd))
     for lem in REG.lemmas:
         if prop in lem['props'] and args.only in lem['id']:
-            jobs.append(('lemma', lem['id'], modules, timeout_ms, []))
+            jobs.append(('lemma', lem['id'], modules, timeout_ms, [f for f in findings if f.get('target') == 'lemma:' + lem['id']]))
     assumed = sorted(k for k, c in REG.contracts.items() if not c.get('verify', True))
     results = []
     if jobs:
